@@ -811,6 +811,76 @@ def run_opt_tables(unit, res):
 
 
 # ---------------------------------------------------------------------------------------------
+# wide index sets: K = 12 designs, every active subset of size <= 3 of {1,3,8,9,10,11} (python set
+# iteration order differs from sorted order once indices reach the hash-table size), one real step
+
+
+def run_bigidx(unit, res, only=None):
+    _, prop, alg_name, seed = unit
+    core.import_vopy()
+    K, m = 12, 2
+    tmpl = stepmc.build_template(alg_name, ("comp", 2) if alg_name not in stepmc.ORTHANT_ONLY else None, K, m, 0.1, noise_var=1.0, delta=0.5,
+                                 contraction=64.0 if alg_name in ("PaVeBa", "Auer") else 1.0)
+    pool = [1, 3, 8, 9, 10, 11]
+    subsets = [c for r in (1, 2, 3) for c in itertools.combinations(pool, r)]
+    fam = stepmc.family(alg_name)
+    n_unsorted = 0
+    for S in subsets:
+        for Pset in (set(), {0, 5}):
+            if only is not None and [list(S), sorted(Pset)] != only:
+                continue
+            alg = copy.deepcopy(tmpl)
+            U = set(Pset) if fam == "paveba" else set()
+            stepmc.inject(alg, set(S), set(Pset), U, rnd=2)
+            # incomparable truths far apart and tiny regions: nothing is eliminated, everything stays identifiable
+            for i in range(K):
+                alg.model.mean[i] = np.array([float(i), float(K - i)])
+                alg.model.cov[i] = np.eye(m) * 1e-6
+            # scripted observations that identify the design they belong to
+            inner = alg.problem.inner
+            pts = alg.design_space.points
+
+            def script(x, *a, **kw):
+                x = np.atleast_2d(x)
+                idx = [int(np.argmin(np.max(np.abs(pts[:, : x.shape[1]] - r), axis=1))) for r in x]
+                return np.array([[100.0 + i, 200.0 + i] for i in idx])
+
+            alg.problem.script = script
+            active = set(S) | U if fam == "paveba" else set(S)
+            if list(active) != sorted(active):
+                n_unsorted += 1
+            res["evaluations"] += 1
+            res["transitions"] += 1
+            case = {"mode": "bigidx", "unit": list(unit), "S": list(S), "P": sorted(Pset)}
+            try:
+                alg.run_one_step()
+            except Exception as e:
+                res["violations"].append(_viol(prop, "step-raised", alg_name, case, "completes", repr(e)[:160], f"{alg_name} K=12 S={S}: run_one_step raised {e!r}"))
+                return
+            rows = _requested(alg)
+            want = sorted(active)
+            got = sorted(r[0] for r in rows)
+            if got != want:
+                res["violations"].append(_viol(prop, "not-every-active-once", alg_name, case, want, got, f"{alg_name} K=12 active={want}: requested designs {got}"))
+                return
+            # what the model was handed: (index list in the order it will be zipped, observations)
+            for a in alg.model.added:
+                idxs, ys = a[0], np.asarray(a[1])
+                for r, i in enumerate(idxs):
+                    i = int(i)
+                    if not np.array_equal(ys[r], np.array([100.0 + i, 200.0 + i])):
+                        res["violations"].append(_viol(prop, "model-data-pairing", alg_name, case, [100.0 + i, 200.0 + i], ys[r].tolist(),
+                                                       f"{alg_name} K=12 active set {list(active)} (iteration order) : the observation stored for design {i} is {ys[r].tolist()}, which belongs to design {int(ys[r][0] - 100)}"))
+                        return
+            res["nontrivial"] += 1
+            core.bump(res, "c07_bigidx_checked")
+    core.bump(res, "c07_bigidx_unsorted_iteration_orders", n_unsorted)
+    res["states"] += len(subsets) * 2
+    res["outcomes"].append(f"bigidx:{alg_name}:{n_unsorted}")
+    res["samples"].append({"flavour": "wide index sets", "alg": alg_name, "K": K, "active_subsets": len(subsets), "with_unsorted_set_order": n_unsorted})
+
+
+# ---------------------------------------------------------------------------------------------
 # VOGP_AD (ninth algorithm): reuse the C18 explorer with C06 / C07 transition checks
 
 
@@ -894,6 +964,8 @@ def units(ctx, prop):
     if prop == "C07":
         for n in (1, 2, 3, 4, 5):
             us.append(("opt", prop, n, ctx.thorough))
+        for alg in ("PaVeBa", "Auer"):
+            us.append(("bigidx", prop, alg, ctx.seed))
     for d, depth_max in ((1, 2), (1, 3), (2, 2)):
         for which in ("mono", "front", "wave"):
             for spec in ([("comp", 2), ("theta", 120)] if not ctx.thorough else [("comp", 2), ("theta", 60), ("theta", 120)]):
@@ -911,6 +983,8 @@ def run_unit(unit):
         run_opt_tables(unit, res)
     elif unit[0] == "adrun":
         run_adrun(unit, res)
+    elif unit[0] == "bigidx":
+        run_bigidx(unit, res)
     return res
 
 
@@ -924,6 +998,9 @@ def replay_case(case):
     res = core.new_result()
     if case["mode"] in ("opt", "optdec"):
         run_opt_tables(("opt", "C07", case.get("n", 3), False), res)
+        return res["violations"]
+    if case["mode"] == "bigidx":
+        run_bigidx(tuple(case["unit"]), res, only=[list(case["S"]), list(case["P"])])
         return res["violations"]
     if case["mode"] == "adrun":
         u = list(case["unit"])
